@@ -22,6 +22,11 @@ Definition pq_lin_complete (bud : N) (h : list (@orec op res)) : option bool :=
 Definition pq_cert (h : list (@orec op res)) (p : list nat) : bool :=
   cert_ok qspec op res q_step res_eqb [] h p.
 
+(* the same for a history with pending calls: which of them are completed and with which result *)
+Definition pq_pcert (h : list (@orec op res)) (pend : list (pcall op)) (inf : N)
+           (chosen : list (nat * res)) (p : list nat) : bool :=
+  pcert_ok qspec op res q_step res_eqb [] h pend inf chosen p.
+
 (* the Go method an operation of the model stands for *)
 Definition method_name (o : op) : string :=
   match o with
